@@ -57,10 +57,10 @@ func mustU64(s string) uint64 {
 type proofLayout int
 
 const (
-	laySeparate proofLayout = iota // every item its own allocation, cap == len
-	layShared                      // consecutive sub-slices of one buffer
-	layOverCap                     // own allocation with spare capacity holding sentinels
-	layInterleaved                 // items interleaved with other live data in one buffer
+	laySeparate    proofLayout = iota // every item its own allocation, cap == len
+	layShared                         // consecutive sub-slices of one buffer
+	layOverCap                        // own allocation with spare capacity holding sentinels
+	layInterleaved                    // items interleaved with other live data in one buffer
 	numLayouts
 )
 
@@ -224,7 +224,9 @@ func TestC17Vectors(t *testing.T) {
 			c.Shape(fmt.Sprintf("vector-root-%d", i))
 		}
 		if i == 5 {
-			c.Sample(func() interface{} { return map[string]interface{}{"kind": "pinned root vector, all 4 layouts", "vector": x} })
+			c.Sample(func() interface{} {
+				return map[string]interface{}{"kind": "pinned root vector, all 4 layouts", "vector": x}
+			})
 		}
 		c.Done()
 	}
